@@ -362,7 +362,9 @@ class OFDM:
         """
         num_ofdm_symbols = (received_data.size //
                             (self.fft_size + self.cp_size))
-        received_data.shape = (num_ofdm_symbols, self.fft_size + self.cp_size)
+        # np.reshape returns a new view: the caller's array keeps its shape
+        received_data = np.reshape(
+            received_data, (num_ofdm_symbols, self.fft_size + self.cp_size))
         received_data_no_CP = received_data[:, self.cp_size:]
 
         return received_data_no_CP
